@@ -67,7 +67,9 @@ CallBad ==
 EndBad ==
     LET stop == IF E.stop \in LegitStops THEN {} ELSE {"Stop_" \o E.stop}
         x == s.expect
-        eq == IF ~x.present \/ Mode = "contract" THEN {}
+        \* the driver gave up at a bound of the exploration (call budget, output limit, image too large): no verdict
+        inconclusive == E.stop \in {"maxcalls", "out_limit", "too_large", "frame_limit"}
+        eq == IF ~x.present \/ Mode = "contract" \/ inconclusive THEN {}
               ELSE IF Mode = "reference"
               THEN \* reference payload: OK (or the documented end-of-data note for image/token flows) and equal output
                    (IF E.cls \notin {"ok", "note"} THEN {"ReferenceDecodesOK"} ELSE {})
